@@ -55,6 +55,14 @@ def function_ast(fn):
                     best = node
                     break
     if best is None:
+        # decorator wrappers carry the wrapped function's name (functools.update_wrapper): match by line only
+        module = sys.modules.get(getattr(fn, "__globals__", {}).get("__name__", fn.__module__), module)
+        tree, src, path = module_ast(module)
+        for node in ast.walk(tree):
+            if isinstance(node, (ast.FunctionDef, ast.AsyncFunctionDef)) and node.lineno == line:
+                best = node
+                break
+    if best is None:
         raise LookupError(f"cannot locate source of {fn.__module__}:{fn.__qualname__}")
     record(fn.__module__ + ":" + fn.__qualname__, best, src, path)
     return best, module
